@@ -1,13 +1,13 @@
-\* generated by mkstorecfg.py - edge cover for C07: failing reads (SELECTs) in front of each write
+\* generated by mkstorecfg.py - code before the F11 repair (initCache sets lastIndex before the node walk): TLC must find the stale frontier after a failed read
 CONSTANTS
   Kind = "bridge"
   Fixed = TRUE
-  FixedF11 = TRUE
+  FixedF11 = FALSE
   H = 3
   MaxBlocks = 3
   MaxEvents = 2
   MaxLeaves = 4
-  MaxOps = 4
+  MaxOps = 5
   Faults = {"read"}
   AllowGap = FALSE
   Dups = FALSE
@@ -18,5 +18,6 @@ CONSTANTS
 INIT Init
 NEXT Next
 VIEW view
-ACTION_CONSTRAINT Dump
+INVARIANT Inv
+PROPERTY HaltedStops
 CHECK_DEADLOCK FALSE
